@@ -16,7 +16,7 @@ S = 2 ** 20
 SK = 2 ** 18
 SD = 2 ** 22
 H = 2.0 ** -6
-MATS = {"neohooke": lambda: fem.NeoHooke(mu=1.0, bulk=3.0), "svk-ad": lambda: fem.Hyperelastic(th.saint_venant_kirchhoff, mu=1.0, lmbda=2.0),
+MATS = {"neohooke": lambda: fem.NeoHooke(mu=1.25, bulk=3.0), "svk-ad": lambda: fem.Hyperelastic(th.saint_venant_kirchhoff, mu=1.25, lmbda=2.0),
         "mooneyrivlin-ad": lambda: fem.Hyperelastic(th.mooney_rivlin, C10=0.25, C01=0.25) & fem.Volumetric(bulk=3.0)}
 
 
@@ -116,11 +116,11 @@ def main():
             mkf = (lambda r: fem.Field(r, dim=3)) if dim == 3 else (lambda r: fem.FieldPlaneStrain(r, dim=2))
             f = fem.FieldContainer([mkf(region)])
             b, lc = fem.dof.uniaxial(f, clamped=True, move=move)
-            sb = fem.SolidBodyNearlyIncompressible(fem.NeoHooke(mu=1.0), f, bulk=bulk)
+            sb = fem.SolidBodyNearlyIncompressible(fem.NeoHooke(mu=1.25), f, bulk=bulk)
             res = fem.newtonrhapson(items=[sb], verbose=0, tol=1e-10, **lc)
             fm = fem.FieldsMixed(region, n=3, planestrain=(dim == 2)) if dim == 2 else fem.FieldsMixed(region, n=3)
             b2, lc2 = fem.dof.uniaxial(fm, clamped=True, move=move)
-            sm = fem.SolidBody(fem.ThreeFieldVariation(fem.NeoHooke(mu=1.0, bulk=bulk)), fm)
+            sm = fem.SolidBody(fem.ThreeFieldVariation(fem.NeoHooke(mu=1.25, bulk=bulk)), fm)
             res2 = fem.newtonrhapson(items=[sm], verbose=0, tol=1e-10, **lc2)
             out.write({"id": rid, "kind": "condensed", "nt": True, "tol": 32, "u": q(res.x[0].values, S), "u3": q(res2.x[0].values, S),
                        "p": q(np.ravel(sb.results.state.p), SK), "p3": q(res2.x[1].values.ravel(), SK),
